@@ -35,10 +35,30 @@ def get_component_full_name( c_rtype ):
       if is_bitstruct_class(obj):
         return get_rtlir_dtype( obj() ).get_name()
       return obj.__name__
-    if isinstance(obj, (set, frozenset)):
-      # The iteration order of a set depends on PYTHONHASHSEED
-      return '{' + ', '.join( sorted( get_string(x) for x in obj ) ) + '}'
+    if has_set( obj ):
+      return canonical( obj )
     return str( obj )
+
+  # The iteration order of a set depends on PYTHONHASHSEED: a parameter
+  # that is or contains a set is rendered with the elements of every set
+  # in sorted order
+
+  def has_set( obj ):
+    if isinstance(obj, (set, frozenset)):  return True
+    if isinstance(obj, (list, tuple)):     return any( has_set(x) for x in obj )
+    if isinstance(obj, dict):              return any( has_set(x) for x in obj.values() )
+    return False
+
+  def canonical( obj ):
+    if isinstance(obj, (set, frozenset)):
+      return '{' + ', '.join( sorted( canonical(x) for x in obj ) ) + '}'
+    if isinstance(obj, tuple):
+      return '(' + ', '.join( canonical(x) for x in obj ) + ( ',)' if len(obj) == 1 else ')' )
+    if isinstance(obj, list):
+      return '[' + ', '.join( canonical(x) for x in obj ) + ']'
+    if isinstance(obj, dict):
+      return '{' + ', '.join( f'{canonical(k)}: {canonical(v)}' for k, v in obj.items() ) + '}'
+    return repr( obj )
 
   comp_name = c_rtype.get_name()
   comp_params = c_rtype.get_params()
